@@ -807,7 +807,8 @@ def op_checksigadd_schnorr(stack, tx_obj, input_index):
     if point.verify_schnorr(msg, sig):
         stack.append(encode_num(n + 1))
     else:
-        stack.append(encode_num(n))
+        # BIP342: a non-empty signature that does not verify fails the script
+        return False
     return True
 
 
